@@ -320,38 +320,60 @@ def percpu(chk, repo):
         "self.descriptor.map.cpu_no", ln))
     chk.ob("R08.5", pv.qualname + ".__getitem__", "index bounded by the CPU "
            "count", ok, gi, "0 <= key < cpu_no, else IndexError")
-    col = repo.func(A + "ArrayMap.collect")
-    # the last re-definition of the running position from itself, folded for
-    # every position 0..64: it must be the next multiple of 8 (whatever the
-    # idiom: (p + 7) // 8 * 8, (p + 7) & -8, -(-p // 8) * 8 ...)
-    ok, why, at = False, "no statement rounds the running position", col
-    ev = Evaluator(repo, col._module)
-    for st in [s for s in walk_no_nested(col) if isinstance(s, ast.Assign)
-               and len(s.targets) == 1 and isinstance(s.targets[0], ast.Name)]:
-        nm = st.targets[0].id
-        used = {n.id for n in ast.walk(st.value) if isinstance(n, ast.Name)}
-        if used != {nm}:
-            continue
+    # that the size collect() returns is a multiple of 8 covering every
+    # slot (the per-CPU stride) is decided on the computed layouts: R08.2
+    # "the size returned covers every slot and is a multiple of 8"
+    am = repo.cls(A + "ArrayMap")
+    dc = repo.cls(A + "ArrayGlobalVarDesc")
+    col = am.methods["collect"]
+    bad = []
+    for k in range(0, 20):
+        me = Obj(am, {})
+        top = _prog([{f"v{i}": Obj(dc, {"map": me, "fmt": "B"})
+                      for i in range(k)}])
         try:
-            tab = [ev.eval(st.value, {nm: v}) for v in range(65)]
-        except (Unknown, Raised):
-            continue
-        if tab == list(range(65)):
-            continue
-        at = st
-        ok = tab == [(v + 7) // 8 * 8 for v in range(65)]
-        why = f"`{unparse(st)}` for sizes 0..64 gives " + (
-            "the next multiple of 8" if ok else str(tab[:10]) + "...")
+            total = Evaluator(repo, am.module, am).call_function(
+                col, [me, top], cls=am)
+        except (Unknown, Raised) as e:
+            raise AnalysisError(f"ArrayMap.collect: cannot be evaluated: "
+                                f"{e}")
+        if not isinstance(total, int) or total % 8 or total < k:
+            bad.append(f"{k} bytes of variables: size {total!r}")
     chk.ob("R08.5", A + "ArrayMap.collect", "map size is rounded up to 8",
-           ok, at, why)
+           not bad, col, "; ".join(bad[:3]) or "0..19 one-byte variables: "
+           "the size is the next multiple of 8 or more")
 
 
 def values(chk, repo):
     d = repo.cls(A + "ArrayGlobalVarDesc")
     up = d.methods["unpack"]
-    ok = bool(find("len(ret) == 1", up)) and bool(find("ret[0]", up))
+    # abstract execution of unpack() on a packed buffer, per format
+    import struct as _struct
+    bad = []
+    for fmt, vals in (("B", (200,)), ("h", (-3,)), ("I", (70000,)),
+                      ("q", (-5,)), ("BI", (7, 9)), ("hb", (-2, 3)),
+                      ("3H", (1, 2, 3)), ("x", (2.5,))):
+        addr = 8
+        if fmt == "x":
+            raw = _struct.pack("q", int(vals[0] * 100000))
+        else:
+            raw = _struct.pack(fmt, *vals)
+        data = bytes(addr) + raw + bytes(8)
+        me = Obj(d, {"fmt": fmt, "name": "v", "fmt_addr": ("hook",
+                     lambda inst, _f=fmt, _a=addr: (_f, _a))})
+        try:
+            got = Evaluator(repo, d.module, d).call_function(
+                up, [me, Obj(None, {}), data], cls=d)
+        except (Unknown, Raised) as e:
+            raise AnalysisError(f"{d.qualname}.unpack: cannot be evaluated "
+                                f"for {fmt!r}: {e}")
+        want = vals[0] if len(vals) == 1 else vals
+        if got != want or type(got) is not type(want):
+            bad.append(f"{fmt!r} packed from {vals}: reads {got!r}")
     chk.ob("R08.6", d.qualname + ".unpack", "one-element formats yield the "
-           "scalar, others the tuple", ok, up, "len(ret) == 1 -> ret[0]")
+           "scalar, others the tuple, x the scaled float", not bad, up,
+           "; ".join(bad[:3]) or "8 formats packed by struct and read back "
+           "through unpack()")
     st = d.methods["__set__"]
     ifs = [s for s in walk_no_nested(st) if isinstance(s, ast.If)
            and match("not isinstance(value, tuple)", s.test) is not None]
